@@ -1,18 +1,17 @@
 #!/bin/bash
-# evalmut.sh <ID> <mutant.diff> <demo.py> : confirm a seeded change in a scratch worktree and run ./check <ID> against it.
-# Uses a private worktree (BEZIERS_REPO override) so that /repo is never touched while other work reads it.
+# evalmut.sh <ID> <patch.diff> <demo.py> : confirm a seeded change in a scratch worktree of /repo and run ./check <ID> against it.
+# Everything happens in private copies (a worktree of /repo HEAD and a copy of /verif with its build), so neither /repo nor
+# /verif's build directory is touched; both copies are removed at the end.
 set -u
 ID=$1; DIFF=$(readlink -f "$2"); DEMO=$(readlink -f "$3")
-WT=/tmp/mutrepo_$$
+WT=/tmp/mutrepo_$$; VC=/tmp/mutverif_$$
 git -C /repo worktree add -q "$WT" HEAD || exit 9
-trap 'git -C /repo worktree remove --force "$WT" >/dev/null 2>&1' EXIT
+rsync -a --exclude .git --exclude work --exclude replays /verif/ "$VC"/ && mkdir -p "$VC/replays"
+trap 'git -C /repo worktree remove --force "$WT" >/dev/null 2>&1; rm -rf "$VC"' EXIT
 cd "$WT"
-echo "== demo on clean tree"; PYTHONPATH=$WT/src /venv/bin/python "$DEMO" >/tmp/evalmut_demo0.txt 2>&1; echo "exit $?"
+PYTHONPATH=$WT/src /venv/bin/python "$DEMO" >/dev/null 2>&1; echo "demo on clean tree: exit $?"
 git apply "$DIFF" || { echo "PATCH DOES NOT APPLY"; exit 8; }
-echo "== test suite with the change"; PYTHONPATH=$WT/src /venv/bin/python -m pytest -q -p no:cacheprovider 2>&1 | tail -1
-echo "== demo with the change"; PYTHONPATH=$WT/src /venv/bin/python "$DEMO" >/tmp/evalmut_demo1.txt 2>&1; echo "exit $?"; tail -3 /tmp/evalmut_demo1.txt
-echo "== ./check $ID against the changed tree"
-cd /verif && BEZIERS_REPO=$WT ./check "$ID" 2>&1 | grep -v "^!" | tail -6
+echo -n "test suite with the change: "; PYTHONPATH=$WT/src /venv/bin/python -m pytest -q -p no:cacheprovider 2>&1 | tail -1
+PYTHONPATH=$WT/src /venv/bin/python "$DEMO" >/tmp/evalmut_demo_$$.txt 2>&1; echo "demo with the change: exit $?"; tail -2 /tmp/evalmut_demo_$$.txt | cut -c1-200; rm -f /tmp/evalmut_demo_$$.txt
+cd "$VC" && BEZIERS_REPO=$WT ./check "$ID" 2>&1 | grep -v "^!" | grep -E "tier=|VIOLATION|broken:|KNOWN-FINDING" | cut -c1-260
 echo "check exit ${PIPESTATUS[0]}"
-# restore the build state for the unchanged tree
-cd /verif && ./setup.sh >/dev/null 2>&1
